@@ -556,6 +556,8 @@ package parser
 //@   requires ParInv(p)
 //@   ensures [inv] ParInv(p) && PFrame(p) && MuLe(p)
 //@   ensures [C06:exponent_bounded] result != nil ==> 0 - 1000 <= expo && expo <= 1000
+//@   ensures [commodity_range] result != nil && result.Commodity.Symbol != "" ==> PosIn(result.Commodity.Range.Start, len(p.lexer.input)) && PosIn(result.Commodity.Range.End, len(p.lexer.input))
+//@   ensures [fresh] result != nil ==> fresh(result)
 //@   ensures [C02:sign_kept] result != nil && sign == "-" ==> hasprefix(result.RawQuantity, "-")
 //@   modifies p.current, p.errors, p.defaultYear, p.lexer.pos, p.lexer.column, p.lexer.line, p.lexer.atStart
 
@@ -574,9 +576,9 @@ package parser
 //@   modifies p.current, p.errors, p.defaultYear, p.lexer.pos, p.lexer.column, p.lexer.line, p.lexer.atStart
 
 // PLine: a posting starts on a line of the input (AST well-formedness that the formatter and the range builders rely on).
-//@ pred PLine(po, n) := po.Range.Start.Line >= 1 && po.Range.Start.Line <= n + 1 && PosIn(po.Account.Range.Start, n) && PosIn(po.Account.Range.End, n)
+//@ pred PLine(po, n) := po.Range.Start.Line >= 1 && po.Range.Start.Line <= n + 1 && PosIn(po.Account.Range.Start, n) && PosIn(po.Account.Range.End, n) && (po.Amount != nil && po.Amount.Commodity.Symbol != "" ==> PosIn(po.Amount.Commodity.Range.Start, n) && PosIn(po.Amount.Commodity.Range.End, n))
 // DirOK: the account / commodity named by a directive has a range inside the input.
-//@ pred DirOK(d, n) := (typeis(d, "ast.AccountDirective") ==> PosIn(as(d, "ast.AccountDirective").Account.Range.Start, n) && PosIn(as(d, "ast.AccountDirective").Account.Range.End, n)) && (typeis(d, "ast.CommodityDirective") && as(d, "ast.CommodityDirective").Commodity.Range.Start.Line != 0 ==> PosIn(as(d, "ast.CommodityDirective").Commodity.Range.Start, n) && PosIn(as(d, "ast.CommodityDirective").Commodity.Range.End, n))
+//@ pred DirOK(d, n) := (typeis(d, "ast.AccountDirective") ==> PosIn(as(d, "ast.AccountDirective").Account.Range.Start, n) && PosIn(as(d, "ast.AccountDirective").Account.Range.End, n)) && (typeis(d, "ast.CommodityDirective") && as(d, "ast.CommodityDirective").Commodity.Symbol != "" ==> PosIn(as(d, "ast.CommodityDirective").Commodity.Range.Start, n) && PosIn(as(d, "ast.CommodityDirective").Commodity.Range.End, n))
 //@ func (*Parser).parsePosting
 //@   props C06
 //@   requires ParInv(p)
@@ -636,7 +638,7 @@ package parser
 //@   requires ParInv(p)
 //@   ensures [inv] ParInv(p) && PFrame(p) && MuLe(p)
 //@   ensures [kind] !typeis(result, "ast.AccountDirective")
-//@   ensures [C08:commodity_range] typeis(result, "ast.CommodityDirective") && as(result, "ast.CommodityDirective").Commodity.Range.Start.Line != 0 ==> PosIn(as(result, "ast.CommodityDirective").Commodity.Range.Start, len(p.lexer.input)) && PosIn(as(result, "ast.CommodityDirective").Commodity.Range.End, len(p.lexer.input))
+//@   ensures [C08:commodity_range] typeis(result, "ast.CommodityDirective") && as(result, "ast.CommodityDirective").Commodity.Symbol != "" ==> PosIn(as(result, "ast.CommodityDirective").Commodity.Range.Start, len(p.lexer.input)) && PosIn(as(result, "ast.CommodityDirective").Commodity.Range.End, len(p.lexer.input))
 //@   modifies p.current, p.errors, p.defaultYear, p.lexer.pos, p.lexer.column, p.lexer.line, p.lexer.atStart
 //@   loop 1 invariant ParInv(p) && PFrame(p) && MuLe(p)
 //@   loop 1 decreases 2 * (len(p.lexer.input) - p.lexer.pos) + ite(p.current.Type != TokenEOF, 1, 0)
